@@ -17,12 +17,14 @@ def quant(ip, kind, view, body_fn):
         parts = [body_fn(x) for x in view.items]
         return AND(*parts) if kind == "forall" else OR(*parts)
     k = T("q%d" % next(ip.bound), "Int")
+    n = getattr(view, "guard_len", None) or view.len      # unclamped length: same guard for k >= 0
     ip.bound_stack.append(k)
+    ip.bound_guards = getattr(ip, "bound_guards", []) + [(k, n)]     # (for obligations emitted while the body is evaluated: vmembers.emit_closed)
     try:
         body = body_fn(view.get(k))
     finally:
         ip.bound_stack.pop()
-    n = getattr(view, "guard_len", None) or view.len      # unclamped length: same guard for k >= 0
+        ip.bound_guards = ip.bound_guards[:-1]
     if kind == "forall":
         return T("(forall ((%s Int)) (=> (and (<= 0 %s) (< %s %s)) %s))" % (k.s, k.s, k.s, n.s, body.s), "Bool")
     return T("(exists ((%s Int)) (and (<= 0 %s) (< %s %s) %s))" % (k.s, k.s, k.s, n.s, body.s), "Bool")
@@ -60,6 +62,9 @@ def type_test(ip, st, v, tyname):
             cell = st.heap[v.cid]
             if isinstance(cell, (LstCell, PyListCell)):
                 return TRUE if tyname == "list" else FALSE
+            if type(cell).__name__ == "IterLstCell":
+                from .lib_sib import iterlst_is_list      # the list of generators is a list; a generator in it is not
+                return TRUE if tyname == "list" and iterlst_is_list(cell, v) else FALSE
             return FALSE
         if isinstance(v, Opaque) and v.sort in ("V", "Obj", "Val"):
             if v.sort == "Val":
@@ -247,6 +252,9 @@ def call_builtin(ip, st, name, pos, kws, node):
                 return [(st, n)]
             if isinstance(cell, PyDictCell):
                 return [(st, Num(I(len(cell.items))))]
+            if type(cell).__name__ == "IterLstCell":
+                from .lib_sib import iterlst_len
+                return [(st, iterlst_len(ip, st, cell, v))]
             if isinstance(cell, ValCell):
                 f = reg.ufun("vlen", ["Val"], "Int")
                 t = T("(%s %s)" % (f, ip.deref(st, v).s), "Int")
@@ -416,6 +424,13 @@ def call_builtin(ip, st, name, pos, kws, node):
         return [(st, ip.new_cell(st, IterCell(ip.as_view(st, v), I(0))))]
     if name == "next":
         from .stmts import iter_next
+        if len(pos) == 1 and isinstance(pos[0], Ref) and isinstance(st.heap[pos[0].cid], ObjCell):
+            # next(obj) is type(obj).__next__(obj): through that method's contract
+            k = ip.contracts.find_method(st.heap[pos[0].cid].cls, "__next__")
+            if k is None:
+                raise U("next() of an instance of %s: no contract for __next__" % st.heap[pos[0].cid].cls)
+            from .calls import apply_contract
+            return apply_contract(ip, st, k, [pos[0]], {})
         return iter_next(ip, st, pos[0], default=pos[1] if len(pos) > 1 else None)
     if name in ("str", "repr"):
         if pos and isinstance(pos[0], Str) and name == "str":
@@ -448,6 +463,11 @@ def call_builtin(ip, st, name, pos, kws, node):
         if len(pos) == 1 and isinstance(pos[0], Fun) and pos[0].kind == "dictview" and pos[0].name == "items":
             # sorted(d.items(), key=...): the items of d in some order (dictionary VALUES are order-free in the encoding)
             return [(st, Fun("dictpairs", recv=pos[0].recv))]
+        if len(pos) == 1 and not kws:
+            from .lib_acc2 import sorted_list          # sorted(list of flow values, symbolic length): library contract
+            r = sorted_list(ip, st, pos[0])
+            if r is not None:
+                return r
         raise U("sorted")
     if name == "type":
         raise U("type()")
@@ -727,6 +747,23 @@ def pylist_method(ip, st, recv, cell, name, pos, kws):
         return [(st, NONE)]
     if name == "extend":
         src = consume_view(ip, st, pos[0])
+        if src.items is None and items and not recv.path and all(
+                isinstance(x, Opaque) and x.sort == items[0].sort and x.sort in ("Obj", "V") for x in items):
+            # [e0, ..] of abstract objects extended by a sequence of symbolic length: from now on the same list object is
+            # a symbolic list (only its representation changes): the old items first, then the items of the sequence in order
+            reg = ip.reg
+            sort = reg.lst(items[0].sort)
+            nt = reg.new("ext", sort)
+            k = len(items)
+            st.assume(EQ(reg.l_len(nt), ADD(I(k), src.len)))
+            for i, x in enumerate(items):
+                st.assume(EQ(reg.l_get(nt, I(i)), x.t))
+            q2 = T("q%d" % next(ip.bound), "Int")
+            body = EQ(reg.l_get(nt, q2), elem_term(ip, st, src.get(SUB(q2, I(k))), items[0].sort))
+            st.assume(T("(forall ((%s Int)) (! (=> (and (<= %d %s) (< %s %s)) %s) :pattern (%s)))" % (
+                q2.s, k, q2.s, q2.s, ADD(I(k), src.len).s, body.s, reg.l_get(nt, q2).s), "Bool"))
+            st.heap[recv.cid] = LstCell(nt)
+            return [(st, NONE)]
         if src.items is None:
             raise U("extend of a concrete list by a symbolic sequence")
         st.heap[recv.cid] = PyListCell(items + src.items)
@@ -822,6 +859,9 @@ def pydict_method(ip, st, recv, cell, name, pos, kws):
 def str_method(ip, st, recv, name, pos, kws):
     s = recv.s
     if name == "format":
+        if ip.c is not None and ip.c.ghost.get("str_format"):
+            from .lib_graph import str_format        # opt-in: the text as a concatenation of its formatted fields
+            return str_format(ip, st, s, pos, kws)
         return [(st, Str("<formatted>"))]
     if name == "split" and len(pos) == 1 and isinstance(pos[0], Str):
         return [(st, ip.new_cell(st, PyListCell([Str(x) for x in s.split(pos[0].s)])))]
